@@ -105,11 +105,12 @@ class C07(Check):
     def run(self, ctx):
         c = impl()
         rng = ctx.sub_rng('c07')
-        self.corr_detect(ctx, c, rng)
-        self.corr_text(ctx, c, rng)
-        self.corr_incdec(ctx, c, rng)
-        self.oracle_spec(ctx, c, rng)
-        self.oracle_roundtrip_chunking(ctx, c, rng)
+        ctx.phase(self.corr_detect, ctx, c, rng)
+        ctx.phase(self.corr_text, ctx, c, rng)
+        ctx.phase(self.corr_incdec, ctx, c, rng)
+        ctx.phase(self.corr_incenc, ctx, c, rng)
+        ctx.phase(self.oracle_spec, ctx, c, rng)
+        ctx.phase(self.oracle_roundtrip_chunking, ctx, c, rng)
 
     # -- correspondence: detector ----------------------------------------------------------------
     def corr_detect(self, ctx, c, rng):
@@ -206,19 +207,28 @@ class C07(Check):
         for (parts, given, force), m in zip(cases, out):
             d = c.IncrementalDecoder(encoding=given, force=force)
             try:
-                outs = [d.decode(p, False) for p in parts]
-                codecs.getdecoder('css')(b''.join(parts), encoding=given, force=force)
+                one = codecs.getdecoder('css')(b''.join(parts), encoding=given, force=force)[0]
             except LookupError:
                 ctx.count('incdec:unknown-encoding-name (skipped: codec lookup is not modelled)')
                 continue
-            if d.decoder is None:
-                st = 'W:' + encb(d.buffer)
-            elif not d.headerfixed:
-                st = 'D:%s:%s' % (enc(d.encoding), enc(d.buffer))
-            else:
-                st = 'S:' + enc(d.encoding)
-            fin = d.decode(b'', True)
-            one = codecs.getdecoder('css')(b''.join(parts), encoding=given, force=force)[0]
+            try:
+                outs = [d.decode(p, False) for p in parts]
+                if d.decoder is None:
+                    st = 'W:' + encb(d.buffer)
+                elif not d.headerfixed:
+                    st = 'D:%s:%s' % (enc(d.encoding), enc(d.buffer))
+                else:
+                    st = 'S:' + enc(d.encoding)
+                fin = d.decode(b'', True)
+            except Exception as e:     # one-shot decode works on this input, the incremental decoder must too
+                ctx.violate('incremental decoder = one-shot for every chunking',
+                            {'call': 'IncrementalDecoder', 'chunks': [p.hex() for p in parts], 'encoding': given,
+                             'force': force}, {'exception': repr(e), 'one_shot': one})
+                continue
+            if ''.join(outs) + fin != one:
+                ctx.violate('incremental decoder = one-shot for every chunking',
+                            {'call': 'IncrementalDecoder', 'chunks': [p.hex() for p in parts], 'encoding': given,
+                             'force': force}, {'got': ''.join(outs) + fin, 'want': one})
             got = '%s | %s | %s | %s' % (' '.join(enc(o) for o in outs), enc(fin), st, enc(one))
             ctx.case(key=('incdec', tuple(parts), given, force), nontrivial=len(parts) > 1, kind='incdec:' + st[0],
                      sample={'incdec_chunks': [p.decode('ascii') for p in parts], 'encoding': given, 'force': force,
@@ -226,6 +236,64 @@ class C07(Check):
             if m is not None and ' '.join(m.split()) != ' '.join(got.split()):
                 ctx.disagree('IncrementalDecoder state machine', {'chunks': [p.hex() for p in parts],
                              'encoding': given, 'force': force}, got, m)
+
+    def corr_incenc(self, ctx, c, rng):
+        """IncrementalEncoder machine vs Model/CodecInc.lean `estep`, ASCII text and identity-compatible encodings"""
+        lines, cases = [], []
+        names = ['latin-1', 'ascii', 'utf-8', 'iso-8859-1', 'utf-8-sig', 'UTF_8_SIG']
+        for _ in range(ctx.n(2500, 60000)):
+            r = rng.random()
+            body = ''.join(rng.choice(['a', '{', '}', ' ', '"', '@', 'x:y', '\n', ';', '@charset "', 'c']) for _ in range(rng.randint(0, 8)))
+            if r < 0.6:
+                text = PREFIX + rng.choice(names) + rng.choice(['";', '"', '"; ', '']) + body
+            elif r < 0.8:
+                text = PREFIX[:rng.randint(0, 10)] + body
+            else:
+                text = body
+            n = len(text)
+            k = rng.randint(0, min(5, n))
+            cuts = sorted(rng.randint(0, n) for _ in range(k))
+            parts = [text[a:b] for a, b in zip([0] + cuts, cuts + [n])]
+            given = rng.choice([None, None, 'latin-1', 'ascii', 'utf-8', 'utf-8-sig', 'UTF_8-sig'])
+            lines.append('incenc %s %s' % ('none' if given is None else enc(given), ' '.join(enc(p) for p in parts)))
+            cases.append((parts, given))
+        out = ctx.driver(lines) if ctx.model_ok else [None] * len(lines)
+        bom = codecs.BOM_UTF8
+        for (parts, given), m in zip(cases, out):
+            e = c.IncrementalEncoder(encoding=given)
+            try:
+                one = codecs.getencoder('css')(''.join(parts), encoding=given)[0]
+            except LookupError:
+                ctx.count('incenc:unknown-encoding-name (skipped: codec lookup is not modelled)')
+                continue
+            try:
+                outs = [e.encode(p, False) for p in parts]
+                st = ('W:' + enc(e.buffer)) if e.encoder is None else ('E:' + enc(e.encoding))
+                fin = e.encode('', True)
+            except Exception as ex:
+                ctx.violate('incremental encoder = one-shot for every chunking',
+                            {'call': 'IncrementalEncoder', 'chunks': parts, 'encoding': given},
+                            {'exception': repr(ex), 'one_shot': one.hex()})
+                continue
+            # the identity inner encoder of the model writes no BOM; CPython's utf-8-sig does: drop it for comparison
+            total = b''.join(outs) + fin
+            strip = lambda b: b[len(bom):] if b.startswith(bom) else b
+            outs2 = []
+            seen = False
+            for o in outs + [fin]:
+                if not seen and o:
+                    o = strip(o)
+                    seen = True
+                outs2.append(o)
+            got = '%s | %s | %s | %s' % (' '.join(encb(o) for o in outs2[:-1]), encb(outs2[-1]), st, encb(strip(one)))
+            ctx.case(key=('incenc', tuple(parts), given), nontrivial=len(parts) > 1, kind='incenc:' + st[0],
+                     sample={'incenc_chunks': parts, 'encoding': given, 'outputs': [o.decode('latin-1') for o in outs + [fin]]})
+            if total != one:
+                ctx.violate('incremental encoder = one-shot for every chunking',
+                            {'call': 'IncrementalEncoder', 'chunks': parts, 'encoding': given},
+                            {'got': total.hex(), 'want': one.hex()})
+            if m is not None and ' '.join(m.split()) != ' '.join(got.split()):
+                ctx.disagree('IncrementalEncoder state machine', {'chunks': parts, 'encoding': given}, got, m)
 
     def gen_text(self, rng):
         body = ''.join(rng.choice(['a', '{', '}', ' ', 'é', '€', '"', '@', 'x:y', '\n', '\U0001F600', 'ü', ';'])
